@@ -63,6 +63,9 @@ impl<T: Marked> Marked for Box<T> { fn marked(m: &str, f: &str) -> Self { Box::n
 pub fn w_val(m: &syn::Meta) -> Result<Val> {
     Val::from_meta(m).map(|v| Val(format!("w({})", v.0)))
 }
+pub fn w_opt(m: &syn::Meta) -> Result<Option<Val>> {
+    <Option<Val>>::from_meta(m).map(|o| o.map(|v| Val(format!("w({})", v.0))))
+}
 pub fn m_val(v: Val) -> Val { Val(format!("m({})", v.0)) }
 pub fn t_val(v: Val) -> Result<Val> {
     if v.0 == "s:bad" || v.0 == "w(s:bad)" { Err(Error::custom("t-rejects")) } else { Ok(Val(format!("t({})", v.0))) }
